@@ -142,6 +142,29 @@ pub fn replay_item(out: &mut Out, bv: &Value, rng: &mut Rng, n: usize) {
                         checked_call(out, e, &text, &ph, Some(&exp), json!({"v": "accept"}), true, &ctx);
                     }
                 }
+                // powers on a grid: bases below and above 1, whole exponents far from 0 in both directions (the intermediate of a
+                // reciprocal power loses its digits), as function and as operator
+                if func == "Pow" {
+                    let bases = ["0.5", "0.3", "0.1", "0.999", "2", "1.5", "10", "0.25", "3"];
+                    let exps = [-92.0f64, -50.0, -28.0, -10.0, -3.0, -1.0, 0.0, 1.0, 3.0, 10.0, 30.0, 64.0, 92.0, 0.5, -0.5, 2.5, -2.5];
+                    for b in bases {
+                        for x in exps {
+                            if e == "i64" && (x.fract() != 0.0 || b.contains('.')) { continue; }
+                            for ph in phs_of(e, x) {
+                                let mut asg = Asg::default();
+                                asg.fns.insert(1, func.to_string());
+                                asg.lits.insert(3, (b.to_string(), false));
+                                asg.lits.insert(1, (b.to_string(), false));
+                                let t = T::Call("f2".into(), 1, vec![T::Num(3), T::Ans(5)]);
+                                let exp = expected(e, &t, &asg, &ph);
+                                checked_call(out, e, &format!("{}({},@)", spell, b), &ph, Some(&exp), json!({"v": "accept"}), true, &ctx);
+                                let t = T::Bin("pow".into(), Box::new(T::Num(1)), Box::new(T::Ans(3)));
+                                let exp = expected(e, &t, &asg, &ph);
+                                checked_call(out, e, &format!("{}^@", b), &ph, Some(&exp), json!({"v": "accept"}), true, &ctx);
+                            }
+                        }
+                    }
+                }
             } else {
                 // variadic: one, two and three arguments around the sample
                 for (i, x) in xs.iter().enumerate().take(n.min(60) + 20) {
